@@ -84,7 +84,7 @@ def run(tier, replay=None):
             if rc != 0 or out != want:
                 ck.violation("%s: script %s (%r): expected output %r, got %r%s" % (what, "+".join(s["names"]), text[:120], want[:200], out[:200], (" exit %d %s" % (rc, err[:200])) if rc else ""),
                              {"script": s, "mode": what, "stdout": out, "exit": rc})
-    ck.cov["distinct_nontrivial"] = sum(1 for s in scripts if len(s["lines"]) > len(s["names"]) or any(x in ("strLB", "strRB", "strLK", "strRK", "cmtLB", "cmtLK", "cmtQ", "escQ", "semi", "blockstr", "mlstrblank", "arrayblank", "blockblank", "longline", "longexpr") for x in s["names"]))
+    ck.cov["distinct_nontrivial"] = sum(1 for s in scripts if len(s["lines"]) > len(s["names"]) or any(x in ("strLB", "strRB", "strLK", "strRK", "cmtLB", "cmtLK", "cmtQ", "escQ", "semi", "blockstr", "mlstrblank", "arrayblank", "blockblank", "blockmlstr", "arraymlstr", "longline", "longexpr") for x in s["names"]))
     ck.part("scripts", scripts=len(scripts), differ_from_raw_character_counting=diff_rawcounts)
     for s in scripts[:: max(1, len(scripts) // 3)][:3]:
         ck.sample({"lines": s["lines"], "file_mode_output": s["file"], "repl_transcript": s["repl"]})
@@ -122,7 +122,7 @@ def run(tier, replay=None):
                     ck.violation("statement %r in %s mode: expected %r, got %r%s" % (src[:150], mode, want[:150], out[:300], (" exit %d %s" % (rc, err[:200])) if rc else ""),
                                  {"statement": src, "mode": mode, "stdout": out})
         ck.part("single statements in three modes", statements=len({j[0] for j in jobs}), runs=len(jobs))
-    ck.cov["rule"] = ("all scripts of <= %d statements over 22 statement shapes (plain, value, strings and comments containing { } [ ] \" ;, escaped quote, multi-line block / block with a brace in a string / "
+    ck.cov["rule"] = ("all scripts of <= %d statements over 24 statement shapes (incl. a multi-line string inside an open block and inside an open array literal) (plain, value, strings and comments containing { } [ ] \" ;, escaped quote, multi-line block / block with a brace in a string / "
                       "array literal / string, blank and comment lines), each in file mode with and without a final line break and in REPL mode; plus single statements whose values CalcSem specifies, in "
                       "-eval, REPL and file mode; non-trivial = a multi-line statement or a string/comment containing a grouping character" % n)
     ck.assumptions += ["ReplLoop.tla evaluated by TLC gives the expected grouping and outputs; CalcSem gives the values of single statements", "interactive line editing is out of scope",
